@@ -608,8 +608,7 @@ def rule_r7(prog, res):
     n = 0
     for cn in ('spyne.protocol.xml:XmlDocument',
                'spyne.protocol.soap.soap11:Soap11',
-               'spyne.protocol.json:_SpyneJsonRpc1',
-               'spyne.protocol.dictdoc.hier:HierDictDocument'):
+               'spyne.protocol.json:_SpyneJsonRpc1'):
         f = prog.cls(cn).methods.get('deserialize')
         if f is None:
             continue
@@ -641,7 +640,37 @@ def rule_r7(prog, res):
                             'its single argument belongs and wrapped methods '
                             'skip the missing-member checks' % (
                                 f.qualname, [t for t, _ in atoms]))
-    res.floor('R7', 'placeholder argument lists', n, 4)
+    res.floor('R7', 'placeholder argument lists', n, 3)
+    # a nil message (None from the reader) is expanded by the application,
+    # for wrapped messages only
+    app = prog.cls('spyne.application:Application')
+    pr = app.methods.get('process_request')
+    k = 0
+    for a in walk_no_defs(pr.node):
+        if isinstance(a, ast.Assign) and any(
+                unparse(t) == 'ctx.in_object' for t in a.targets) and \
+                isinstance(a.value, ast.BinOp) and isinstance(
+                    a.value.op, ast.Mult) and \
+                unparse(a.value.left) == '[None]':
+            k += 1
+            atoms = guardspec.atoms_at(a, pr.node)
+            need = [('ctx.in_object is None', True),
+                    ('ctx.descriptor.body_style is BODY_STYLE_BARE', False)]
+            missing = [x for x in need if x not in atoms]
+            where = '%s:%d' % (pr.module.relpath, a.lineno)
+            res.ob('R7', where, 'process_request expands a nil message under '
+                   '%s' % [t for t, _ in atoms if 'in_object' in t or
+                           'body_style' in t], 'ok' if not missing
+                   else 'VIOLATED')
+            for t, p_ in missing:
+                res.finding('R7', 'Application.process_request|nil-message|'
+                            '%s' % t, where, 'the expansion of a nil message '
+                            'into missing members is not restricted by "%s%s"'
+                            ': a bare method would receive a list of Nones '
+                            'where its single argument belongs, or a present '
+                            'message would be discarded' % (
+                                '' if p_ else 'not ', t))
+    res.floor('R7', 'nil message expansions in process_request', k, 1)
 
 
 # ------------------------------------------------------------------- R8
@@ -819,6 +848,20 @@ _A = 'spyne/application.py'
 _D = 'spyne/descriptor.py'
 
 MUTANTS = [
+    Mutant('nil-message-expanded-for-bare', 'R7', 'fire', 'spyne/application.py',
+           in_func('Application.process_request',
+                   r"(            if ctx\.descriptor\.body_style is "
+                   r"BODY_STYLE_BARE:\n                ctx\.in_object = "
+                   r"\[ctx\.in_object\]\n            elif ctx\.descriptor\."
+                   r"body_style is BODY_STYLE_EMPTY:\n                ctx\."
+                   r"in_object = \[\]\n            elif ctx\.in_object is None:"
+                   r"\n)(.*?\n.*?\n.*?\n)",
+                   lambda m_: "            if ctx.in_object is None:\n" +
+                   m_.group(2) + "            elif ctx.descriptor.body_style "
+                   "is BODY_STYLE_BARE:\n                ctx.in_object = "
+                   "[ctx.in_object]\n            elif ctx.descriptor."
+                   "body_style is BODY_STYLE_EMPTY:\n                ctx."
+                   "in_object = []\n", regex=True), 'nil-message'),
     Mutant('message-looked-up-by-type-name', 'R9', 'fire',
            'spyne/protocol/dictdoc/hier.py',
            in_func('HierDictDocument.deserialize',
